@@ -111,7 +111,44 @@ def tee_none(p):
     return mk('tee_none', [('v%d' % i, 'Optional[int]') for i in range(n)], [], body)
 
 
-FAMILIES = {'tee': tee, 'tee_none': tee_none}
+def tee_many(p):
+    """G groups live at once under one tee_map (G crosses 8 / 16): concrete schedule, symbolic values for three of the groups; every group's output is the join of the branches run alone on that group's items"""
+    how, G, brs = p['join'], p['g'], p['branches']
+
+    def body(a):
+        v0, v1, v2 = a
+        items = [(k, k) for k in range(G)] + [(G - 1, v0), (0, v1), (G // 2, v2), (G - 1, v1), (8 % G, v0)]
+        log = []
+        inner = [rs.ops.map(lambda i: i[1]), rs.ops.tee_map(*[rx.pipe(*C.build(BR[b])[0]) for b in brs], join=how), D.tap(log)]
+        err = []
+        D.src(items).pipe(rs.state.with_memory_store([rs.ops.group_by(lambda i: i[0], inner)])).subscribe(on_error=lambda e: err.append(repr(e)))
+        outs, ok = D.lifetimes(log)
+        if err or not ok or len(outs) != G:
+            return fail(groups=G, err=err, wellformed=ok, seen=len(outs))
+        for k in (0, 8 % G, G // 2, G - 2, G - 1):
+            its = [v for kk, v in items if kk == k]
+            traces = [D.run_timed(its, C.build(BR[b])[0], mux=True) for b in brs]
+            exp = [v for _, v in join(traces, how, len(its))]
+            if outs[k] != exp:
+                return fail(groups=G, join=how, branches=brs, group=k, group_items=its, observed=outs[k], expected=exp)
+        return True
+    return mk('tee_many', [('v0', 'int'), ('v1', 'int'), ('v2', 'int')], ['-2**40 <= v%d <= 2**40' % i for i in range(3)], body)
+
+
+def tee_long(p):
+    """one key, n items (n crosses 255 / 256 tuples in one lifetime): the first three items symbolic, the rest concrete"""
+    how, n, brs = p['join'], p['n'], p['branches']
+
+    def body(a):
+        items = list(a) + list(range(3, n))
+        got = D.run_timed(items, [rs.ops.tee_map(*[rx.pipe(*C.build(BR[b])[0]) for b in brs], join=how)], mux=True)
+        traces = [D.run_timed(items, C.build(BR[b])[0], mux=True) for b in brs]
+        exp = join(traces, how, len(items))
+        return got == exp or fail(join=how, branches=brs, n=n, first_difference=[(g, e) for g, e in zip(got, exp) if g != e][:2], lengths=(len(got), len(exp)))
+    return mk('tee_long', [('v0', 'int'), ('v1', 'int'), ('v2', 'int')], ['-2**40 <= v%d <= 2**40' % i for i in range(3)], body)
+
+
+FAMILIES = {'tee': tee, 'tee_none': tee_none, 'tee_many': tee_many, 'tee_long': tee_long}
 
 SETS = [['even', 'odd'], ['id', 'even'], ['scan', 'count_r'], ['even', 'last'], ['take1', 'scan'], ['batch2', 'id'], ['rollsum', 'even'],
         ['even', 'odd', 'id'], ['count_r', 'even', 'scan'], ['last', 'odd', 'batch2'], ['tee_zip', 'odd'], ['tee_cl', 'even'],
@@ -141,5 +178,9 @@ def obligations(tier, seed):
     for how in ('zip', 'merge', 'combine_latest'):
         for ctx in ('root', 'plain'):
             obs.append(Ob(PROP, 'tee_none', dict(join=how, ctx=ctx, n=3 if q else 4), budget=b, group='tee_none', bound=dict(items=3 if q else 4, values='int or None', join=how, ctx=ctx)))
+    for how in ('zip', 'combine_latest'):
+        for g in ((10, 17) if q else (9, 10, 17, 33, 65)):
+            obs.append(Ob(PROP, 'tee_many', dict(join=how, g=g, branches=['even', 'odd']), budget=b * 2, group='tee_many', bound=dict(groups=g, join=how, values='3 symbolic items')))
+        obs.append(Ob(PROP, 'tee_long', dict(join=how, n=260, branches=['id', 'inc']), budget=b * 2, group='tee_long', bound=dict(items=260, join=how)))
     obs.append(Ob(PROP, 'tee', dict(join='zip', branches=['even', 'odd'], ctx='roll22', n=4, _twin='reach'), budget=60, expect='refute'))
     return obs
